@@ -72,6 +72,10 @@ CLAIMS.update({
     "C09": ("class-set (protocol) analysis of result objects narrowed by dominating isinstance / get_type() facts, nullability of dict.get results and link fields, override signature agreement, format-string and sign-test queries", "Decides, for the nine position-based handlers and the helpers they hand objects to: every attribute read on an object that came out of get_definition / find_in_scope / the candidate lists exists for every class the object can still have at that point (class sets from constructors, narrowed by isinstance and get_type() comparisons, with each class's possible get_type() values read from its code and the bundled intrinsic tables), or AttributeError is absorbed; dict.get results, nullable link fields and file-less intrinsic ASTs are tested before use (also when handed to a function that dereferences its parameter); every method call fits every remaining class's override; no computed text is used as a format string; a not-found column never reaches a range builder without a sign test; a position outside the document yields None through get_line / get_line_prefix and handlers touch the line only after that test. Not decided: absence of other exceptions in text helpers (index arithmetic in get_paren_level, get_var_stack), that every returned position lies inside the target document."),
 })
 
+CLAIMS.update({
+    "C11": ("table agreement between the attribute patterns (regex-tree alternatives), the id table, the argument-keeping set and the bundled completion lists; typestate of the pending documentation block on the CFG; backward slice from the hover return values to the entity's fields", "Decides: every attribute the declaration patterns recognise has an id, argument-carrying attributes keep their argument, constant keys exist, every attribute the server's own completion lists offer is recognised by the declaration parser (an unrecognised one silently drops itself and all later attributes); a pending `!>` block is attached by both entity producers and reset on every path afterwards, the forward flag selects between parking and attaching, the parser's buffer is emptied after every hand-over; documentation is never used as a format template; the hover text of a variable depends on desc, kind, keywords, keyword_info, name and param_val and its documentation on its own doc_str, procedures list arg_objs in declared order through each argument's own hover, type hover depends on name/inherit/abstract. Not decided: kind/len extraction, attribute order, active-parameter computation, which entity a doc block belongs to. One known finding (CODIMENSION) is listed in known_findings.json."),
+})
+
 NA_REASON = "check under construction in this round (rules designed in DESIGN.md section 3, not yet implemented); will move to checks once its rules run"
 
 
